@@ -122,6 +122,11 @@ type combo struct {
 	State    bool   `json:"state,omitempty"`
 	Bundles  bool   `json:"bundles,omitempty"`
 	OptState bool   `json:"state_passed_as_option,omitempty"`
+	// StaleKeyId: the message handed to Store carries a non-empty wrapping key ID
+	// although its secrets are in clear (a record the application got back from
+	// somewhere and re-uses; the field is managed by the library, its presence on
+	// input says nothing about the other fields)
+	StaleKeyId bool `json:"wrapping_key_id_preset_on_input,omitempty"`
 }
 
 func bundles() []*types.CertificateBundle {
@@ -257,8 +262,20 @@ func checkCombo(t vkit.TB, c combo) bool {
 	defer cleanup()
 	st := vkit.NewRecStorage(inner)
 	store, load, orig, secrets := buildRecord(c)
+	if c.StaleKeyId {
+		switch m := orig.(type) {
+		case *types.NodeCredentials:
+			m.WrappingKeyId = "A"
+		case *types.NodeInformation:
+			m.WrappingKeyId = "some-earlier-key"
+		case *types.RootCertificates:
+			m.WrappingKeyId = "A"
+		case *types.ServerLedActivationToken:
+			m.WrappingKeyId = "some-earlier-key"
+		}
+	}
 	before := proto.Clone(orig)
-	nontrivial := c.Nonce || c.Prev || c.State || c.Bundles || c.OptState
+	nontrivial := c.Nonce || c.Prev || c.State || c.Bundles || c.OptState || c.StaleKeyId
 	rec.Case("direct/"+c.Type, fmt.Sprintf("%+v", c), nontrivial, func() any { return c })
 	if err := store(st, nodeenrollment.WithStorageWrapper(wa)); err != nil {
 		vkit.Violate(t, prop, "C12/store-failed/"+c.Type, err.Error(), c)
@@ -281,6 +298,21 @@ func checkCombo(t vkit.TB, c combo) bool {
 	if rc, ok := want.(*types.RootCertificates); ok && c.OptState {
 		rc.State = got.(*types.RootCertificates).State // option-supplied state replaces the record's
 	}
+	if c.StaleKeyId {
+		// the wrapping key ID is the library's own bookkeeping: whatever it reports after a load is fine
+		type wk interface{ GetWrappingKeyId() string }
+		id := got.(wk).GetWrappingKeyId()
+		switch m := want.(type) {
+		case *types.NodeCredentials:
+			m.WrappingKeyId = id
+		case *types.NodeInformation:
+			m.WrappingKeyId = id
+		case *types.RootCertificates:
+			m.WrappingKeyId = id
+		case *types.ServerLedActivationToken:
+			m.WrappingKeyId = id
+		}
+	}
 	if !proto.Equal(got, want) {
 		vkit.Violate(t, prop, "C12/roundtrip-differs/"+c.Type, "loading with the same wrapper did not return what was stored", c)
 		return false
@@ -299,6 +331,10 @@ func checkCombo(t vkit.TB, c combo) bool {
 
 func TestEnum_FieldCombinations(t *testing.T) {
 	for _, c := range allCombos() {
+		if !checkCombo(t, c) {
+			return
+		}
+		c.StaleKeyId = true
 		if !checkCombo(t, c) {
 			return
 		}
